@@ -135,7 +135,7 @@ def configs(tier, seed):
                         continue
                     out.append({"kind": "quartet", "ls": list(ls), "geom": g, "ep": ep, "kp": kp, "tier": tier})
     # whole bases
-    specs = [(2, 0), (3, 0)] if tier == "quick" else [(2, 0), (2, 1), (3, 0), (3, 1), (4, 0)]
+    specs = [(2, 0), (3, 0), (2, 3)] if tier == "quick" else [(2, 0), (2, 1), (3, 0), (3, 1), (4, 0), (2, 3)]  # (2,3): generalized p + f
     for n, st in specs:
         for tp in al.type_patterns(n):
             out.append({"kind": "basis", "n": n, "start": st, "types": list(tp)})
